@@ -405,6 +405,10 @@ class DeduplicateDecorator(AsyncDecorator):
             task = self.tasks[cache_key]
         except KeyError:
             task = self.fn.asynq(*args, **kwargs)
+            if task.is_computed():
+                # (an @async_proxy() function may hand out a future that is complete already:
+                # nothing is in flight, and its on_computed will not be raised any more)
+                return task
 
             def callback(task):
                 # only this task's own entry: after dirty() the key may belong to a newer
@@ -416,7 +420,7 @@ class DeduplicateDecorator(AsyncDecorator):
             task.on_computed.subscribe(callback)
             return task
         else:
-            if task.running:
+            if getattr(task, "running", False):
                 # If the task is currently executing, don't return it; asynq
                 # will try to send another value into the generator and fail
                 # with "ValueError: generator is already executing"
